@@ -90,6 +90,7 @@ type worker struct {
 	err    error
 	panicS string
 	expect bool // a successful return means a new stream was started
+	counted bool // that stream was waited for
 }
 
 type refresh struct {
@@ -455,13 +456,34 @@ func (m *impl) Close() {
 			fmt.Fprintln(os.Stderr, "c16: goroutine did not finish")
 		}
 	}
+	// streams started by calls that only returned now must have registered before the hooks change hands
+	need := 0
+	for _, w := range m.threads {
+		select {
+		case <-w.done:
+			if w.expect && !w.counted && w.err == nil && w.panicS == "" {
+				need++
+			}
+		default:
+		}
+	}
+	n0 := len(streams)
+	for deadline := time.Now().Add(2 * time.Second); need > 0 && m.streamCount() < n0+need && time.Now().Before(deadline); {
+		time.Sleep(200 * time.Microsecond)
+	}
 	m.sc.mu.Lock()
 	streams = append([]*stream(nil), m.sc.streams...)
 	m.sc.mu.Unlock()
-	func() {
+	stopDone := make(chan struct{})
+	go func() {
+		defer close(stopDone)
 		defer func() { _ = recover() }()
 		m.hb.StopHeartbeat()
 	}()
+	select {
+	case <-stopDone:
+	case <-time.After(2 * time.Second): // stopMux is held by a call that is kept parked (unrepaired code only)
+	}
 	if m.nilPanics && !m.added.Load() {
 		streams = nil // they stay parked for good
 	}
@@ -589,6 +611,7 @@ func (m *impl) report(w *worker, st int, nBefore int) []hx.Zs {
 		default:
 			// a new stream exists once `go updateHeartbeatData` ran
 			if w.expect {
+				w.counted = true
 				deadline := time.Now().Add(2 * time.Second)
 				for {
 					m.sc.mu.Lock()
